@@ -353,7 +353,14 @@ def random_step(rng):
         v = rng.choice(PLAIN_VALUES)
     elif r < 0.92:
         v = rng.choice(value_shapes(spell(rng, rng.choice(NAMES))))
-        if rng.random() < 0.2:
+        if rng.random() < 0.12:
+            # a reference at the edge of the value with a blank next to it:
+            # when the replacement is empty (or padded) the expanded value
+            # begins or ends with white space, and that is the value
+            o = spell(rng, rng.choice(NAMES))
+            v = rng.choice(["x $%s", "$%s y", "${%s} y", "x ${%s}",
+                            "$%s  ${%s}", "x\t$%s"]).replace("%s", o)
+        elif rng.random() < 0.2:
             v = v + rng.choice([" tail", " tail", "$$", "${%s}" % spell(
                 rng, rng.choice(NAMES))])
     else:
@@ -438,6 +445,21 @@ def generate(rng, tier, index):
     else:
         steps = [random_step(rng) for _ in range(rng.randint(1, 6))]
         origin = "sampled"
+        if rng.random() < 0.06:
+            # scripted skeleton: a name bound to the empty string (or to
+            # blanks only), referenced at the edge of a later definition
+            e, b = rng.sample(NAMES, 2)
+            sk = [{"op": "define", "name": spell(rng, e),
+                   "value": rng.choice(["", "", "$$"[:0]])},
+                  {"op": "define", "name": spell(rng, b),
+                   "value": rng.choice(["x $%s", "$%s y", "${%s} y",
+                                        "x ${%s}"]) % spell(rng, e)},
+                  {"op": "use", "name": spell(rng, b),
+                   "style": rng.choice(["[$%s]", "$%s", "${%s}."])}]
+            if rng.random() < 0.5:
+                sk.append({"op": "define", "name": spell(rng, b),
+                           "value": rng.choice(["x", "y", "x ", " y"])})
+            steps = sk + steps[:2]
     steps = structure(rng, steps)
     plan = {"prop": ID, "origin": origin, "steps": steps,
             "top": rng.choice(TOPS), "other": other_history(rng),
